@@ -9,17 +9,22 @@ CMP = {"<": "CLt", "<=": "CLe", ">": "CGt", ">=": "CGe", "==": "CEq", "!=": "CNe
 ITY = {"i16": "I16", "i32": "I32", "i64": "I64", "u16": "U16", "u32": "U32"}
 
 
-def rhs_term(rhs, where):
+DIMPAT = r"(?:self\.|grammar\.|matrix\.|cm\.)?(?:conn_matrix\(\)\.)?(?:num_%s\(\)|max_%s)"
+
+
+def rhs_term(rhs, where, lets=None):
     r = rhs.strip()
     r = re.sub(r"^\((.*)\)$", r"\1", r).strip()
-    if re.search(r"\b(num_left|max_left)\b", r):
-        if not re.fullmatch(r"(?:self\.|grammar\.|matrix\.|cm\.)?(?:conn_matrix\(\)\.)?(?:num_left\(\)|max_left)", r):
+    if lets and re.fullmatch(r"[a-z_][a-z_0-9]*", r) and r in lets:
+        r = lets[r].strip()
+    for side, name in (("left", "NumLeft"), ("right", "NumRight")):
+        if re.search(r"\b(num_%s|max_%s)\b" % (side, side), r):
+            if re.fullmatch(DIMPAT % (side, side), r):
+                return "ODim %s" % name
+            m = re.fullmatch((DIMPAT % (side, side)) + r"\.max\(([0-9]+)\)", r)
+            if m:
+                return "ODimMax %s %s" % (name, F.coq_int(int(m.group(1)), "Z"))
             raise F.FactError("unrecognised right-hand side %r in %s" % (rhs, where))
-        return "ODim NumLeft"
-    if re.search(r"\b(num_right|max_right)\b", r):
-        if not re.fullmatch(r"(?:self\.|grammar\.|matrix\.|cm\.)?(?:conn_matrix\(\)\.)?(?:num_right\(\)|max_right)", r):
-            raise F.FactError("unrecognised right-hand side %r in %s" % (rhs, where))
-        return "ODim NumRight"
     return "OConst %s" % F.coq_int(F.const_eval(r), "Z")
 
 
@@ -27,6 +32,7 @@ def guards_of(body, aliases, where):
     """all guards on the value named by `aliases` ({source name: cast}) whose block returns an error, in source order.
     Conditions may be disjunctions; a conjunction mentioning the value is not understood."""
     out = []
+    lets = dict(re.findall(r"\blet\s+([a-z_][a-z_0-9]*)\s*=\s*([^;]+);", body))
     for m in re.finditer(r"\bif\s+([^{};]+?)\s*\{\s*return\s+(?:Err\b|num_error\b|ctx\.err\b|Err\()", body):
         cond = m.group(1)
         names = set(re.findall(r"[A-Za-z_][A-Za-z_0-9.]*", cond))
@@ -44,7 +50,7 @@ def guards_of(body, aliases, where):
             if name not in aliases:
                 continue
             cast = "CastUsize" if (asus or aliases[name] == "usize") else "CastNone"
-            out.append("mkG %s %s (%s)" % (cast, CMP[op], rhs_term(rhs, where)))
+            out.append("mkG %s %s (%s)" % (cast, CMP[op], rhs_term(rhs, where, lets)))
     return out
 
 
